@@ -265,8 +265,10 @@ def unit_windows(u, rec):
 
 # --------------------------------------------------------------------------- RepeatedStepper
 
-INNER = ["diffusion1d", "advection1d_even", "advection1d_odd", "dispersion2d_even", "wave1d", "burgers1d", "burgers2d", "kdv1d_even",
-         "ks1d", "nsvort2d", "fisher1d", "grayscott1d", "generalconv1d", "nsvel3d"]
+INNER = ["diffusion1d", "diffusion2d_even", "advection1d_even", "advection1d_odd", "dispersion2d_even", "wave1d", "burgers1d", "burgers2d", "kdv1d_even",
+         "ks1d", "nsvort2d", "fisher1d", "grayscott1d", "generalconv1d", "nsvel3d", "hyperdiffusion3d_even"]
+# inner steppers without odd-order linear terms: the sub-stepping must equal n applications for EVERY state (Nyquist content included)
+EVEN_ORDER = {"diffusion1d", "diffusion2d_even", "burgers1d", "burgers2d", "ks1d", "nsvort2d", "fisher1d", "grayscott1d", "nsvel3d", "hyperdiffusion3d_even"}
 
 
 def make_inner(fam, order=2):
@@ -276,6 +278,10 @@ def make_inner(fam, order=2):
 
     if fam == "diffusion1d":
         return ex.stepper.Diffusion(1, 2.0, 12, 0.1, diffusivity=0.03)
+    if fam == "diffusion2d_even":
+        return ex.stepper.Diffusion(2, 2.0, 8, 0.1, diffusivity=0.03)
+    if fam == "hyperdiffusion3d_even":
+        return ex.stepper.HyperDiffusion(3, 2.0, 6, 0.1, hyper_diffusivity=1e-3)
     if fam == "advection1d_even":
         return ex.stepper.Advection(1, 3.0, 12, 0.07, velocity=0.9)
     if fam == "advection1d_odd":
@@ -330,11 +336,15 @@ def unit_repeated(u, rec):
     import exponax as ex
 
     fam = u["fam"]
-    orders = [2] if fam in ("diffusion1d", "advection1d_even", "advection1d_odd", "dispersion2d_even", "wave1d") else [1, 2, 4]
+    orders = [2] if fam in ("diffusion1d", "diffusion2d_even", "hyperdiffusion3d_even", "advection1d_even", "advection1d_odd", "dispersion2d_even", "wave1d") else [1, 2, 4]
     for order in orders:
         inner = make_inner(fam, order)
         D, N, C = inner.num_spatial_dims, inner.num_points, inner.num_channels
         states = nyquist_free_states(D, N, C, u["seed"])
+        if fam in EVEN_ORDER:
+            # white-noise-like ternary states (content up to and on the Nyquist lines)
+            n_ = C * N**D
+            states = states + [0.3 * (np.mod(np.arange(n_) * 7 + (np.arange(n_) // 3) * 5 + t, 3) - 1.0).reshape((C,) + (N,) * D) for t in (0, 1)]
         rec.dim("inner", fam)
         rec.dim("order", order)
         for n_sub in u["n_sub"]:
